@@ -26,12 +26,15 @@ Record cfg := Cfg {
   c_reraise_cancel : bool;   (* the sender does not swallow the CancelledError of its future (C12-exit-deadlock-swallowed-cancel) *)
   c_drop_late : bool;        (* the keys of requests answered with a synthesised error are remembered and a
                                 later response bearing such a key is dropped                  (C12-6-late-answer-dropped) *)
-  c_route_in_stream : bool   (* an answer that resolves a pending future is delivered by the event-stream
+  c_route_in_stream : bool;  (* an answer that resolves a pending future is delivered by the event-stream
                                 task itself, at once; the sender routes nothing more for it   (C12-7-answer-routed-in-stream-order) *)
+  c_answers_only : bool      (* only a RESPONSE resolves a pending request: a request or notification of the server's
+                                own that bears the same id (ids are per direction) does not    (ecb7629) *)
 }.
-Definition cfg_orig := Cfg false false false false false false false.
-Definition cfg_head := Cfg true true true true true false false.
-Definition cfg_patched := Cfg true true true true true true true.
+Definition cfg_orig := Cfg false false false false false false false false.
+Definition cfg_head := Cfg true true true true true false false false.
+Definition cfg_patched := Cfg true true true true true true true true.
+Definition cfg_before_answers_only := Cfg true true true true true true true false.   (* /repo 4ccf059 .. 14f3f5e *)
 
 (* ------------------------------------------------------------------ *)
 (** * (b) the event-stream parser                                      *)
@@ -308,6 +311,12 @@ Definition not_pending (c : cfg) (st : sstate) (m : msg) : sstate * list out :=
 Definition resolved_out (c : cfg) (m : msg) : list out :=
   if c_route_in_stream c then [(FromSse, m)] else [].
 
+(** does the event-stream message [m] resolve the pending request [i]?  [_handle_message_event] looks the id up in the
+    pending table; since ecb7629 only for a message without a method. *)
+Definition kind_call (k : kind) : bool := match k with KReq | KNotif => true | _ => false end.
+Definition resolves (c : cfg) (i : id) (m : msg) : bool :=
+  same_key i m && negb (c_answers_only c && kind_call (m_kind m)).
+
 Definition step (c : cfg) (st : sstate) (e : ev) : sstate * list out :=
   let late := s_late st in
   match e with
@@ -335,8 +344,8 @@ Definition step (c : cfg) (st : sstate) (e : ev) : sstate * list out :=
   | ESse None => (st, [])
   | ESse (Some m) =>
       match s_task st with
-      | SPosting i => if same_key i m then (SS (SResolved i m) late, resolved_out c m) else not_pending c st m
-      | SWaiting i => if same_key i m then (SS (SWoken i m) late, resolved_out c m) else not_pending c st m
+      | SPosting i => if resolves c i m then (SS (SResolved i m) late, resolved_out c m) else not_pending c st m
+      | SWaiting i => if resolves c i m then (SS (SWoken i m) late, resolved_out c m) else not_pending c st m
       | _ => not_pending c st m
       end
   end.
